@@ -133,6 +133,8 @@ def gen_spec(rng) -> dict:
         "log": rng.chance(0.3),
         "attrs": rng.chance(0.3),
         "steady_variant": rng.chance(0.3),
+        "autoval": rng.chance(0.4),          # a `!steady-autovalues` equation (kind #A): every equation kind the language has
+        "eqdesc": rng.chance(0.3),           # equation descriptions
         "linear": rng.chance(0.6), "flat": rng.chance(0.5), "deterministic": rng.chance(0.25),
     }
 
@@ -141,7 +143,7 @@ def source_of(spec: dict) -> str:
     n = spec["n"]
     xs = [f"x{i}" for i in range(1, n + 1)]
     tv = list(xs) + (["zf"] if spec["fwd"] else []) + (["lv"] if spec["log"] else [])
-    pars = [f"r{i}" for i in range(1, n + 1)] + [f"c{i}" for i in range(1, n + 1)] + ["a"]
+    pars = [f"r{i}" for i in range(1, n + 1)] + [f"c{i}" for i in range(1, n + 1)] + ["a"] + (["sx"] if spec.get("autoval") else [])
     shocks = [f"e{i}" for i in range(1, n + 1) if spec["shocks"][i - 1]]
     eqs = []
     for i in range(1, n + 1):
@@ -152,7 +154,7 @@ def source_of(spec: dict) -> str:
             rhs += " + 0.5*g"
         if spec["shocks"][i - 1]:
             rhs += f" + e{i}"
-        eqs.append(f"x{i} = {rhs};")
+        eqs.append((f'"Equation for x{i}" ' if spec.get("eqdesc") else "") + f"x{i} = {rhs};")
     if spec["fwd"]:
         eqs.append("zf = x1 + 0.5*zf[+1]" + (" !! zf = 2*x1;" if spec["steady_variant"] else ";"))
     if spec["log"]:
@@ -168,6 +170,8 @@ def source_of(spec: dict) -> str:
     if spec["exog"]:
         out.append("!exogenous_variables\n    g")
     out.append(f"!transition_equations{att}\n    " + "\n    ".join(eqs))
+    if spec.get("autoval"):
+        out.append("!steady_autovalues\n    " + ('"Autovalue" ' if spec.get("eqdesc") else "") + "sx = 2*x1 + 1;")
     if spec["meas"]:
         out.append("!measurement_variables\n    o1")
         if spec["mshock"]:
